@@ -23,6 +23,7 @@ type wsConn struct {
 	ws          *websocket.Conn
 	request     *http.Request
 	token       json.RawMessage
+	tokenSeq    uint64 // Number of times a set token has been replaced
 	tid         string
 	serv        *Service
 	subs        map[string]*Subscription
@@ -426,7 +427,14 @@ func (c *wsConn) call(rid, action string, params interface{}, cb func(result jso
 		sub = NewSubscription(c, rid, nil)
 	}
 
+	tokenSeq := c.tokenSeq
 	sub.CanCall(action, func(err error) {
+		// Without a subscription, nothing tells that the token was replaced
+		// while waiting for access. Ask again, with the new token.
+		if !ok && tokenSeq != c.tokenSeq {
+			c.call(rid, action, params, cb)
+			return
+		}
 		if err != nil {
 			cb(nil, "", err)
 			return
@@ -671,6 +679,7 @@ func (c *wsConn) setToken(token json.RawMessage, tid string) {
 	}
 
 	c.token = token
+	c.tokenSeq++
 	for _, sub := range c.subs {
 		sub.reaccess(nil)
 	}
